@@ -227,8 +227,23 @@ def run_case(case: dict) -> dict:
     return res
 
 
+def enable_bytecode_cache() -> None:
+    """`check` sets PYTHONDONTWRITEBYTECODE so that nothing is written into /repo; importing streamflow + cwltool without
+    byte-code costs ~8 s per process. Byte-code goes to a private cache directory of this worktree instead (a cache only:
+    nothing there is needed by a later run; stale entries are detected by the interpreter through source mtimes)."""
+    here = os.path.dirname(os.path.dirname(os.path.dirname(os.path.dirname(os.path.abspath(__file__)))))
+    cache = os.path.join(here, "lean", ".lake", "pycache")
+    try:
+        os.makedirs(cache, exist_ok=True)
+        sys.pycache_prefix = cache
+        sys.dont_write_bytecode = False
+    except OSError:
+        pass
+
+
 def warm_up() -> None:
     """import both runners in the parent so that forked children start instantly"""
+    enable_bytecode_cache()
     import cwltool.main  # noqa: F401
     import streamflow.cwl.runner  # noqa: F401
     import streamflow.main  # noqa: F401
